@@ -51,8 +51,8 @@ def find_witness(ctx):
 
 def check(ctx):
     thorough = ctx.tier == 'thorough'
-    from contracts import insertrange, attrset
-    for mod in (insertrange, attrset):
+    from contracts import insertrange, attrset, movewrap
+    for mod in (insertrange, attrset, movewrap):
         try:
             ctx.verus_unit(mod.make_unit(ctx.scratch.dir), finder=None)
         except Lost as e:
